@@ -47,3 +47,7 @@ MANIFEST = {
     "note": "Trusted: Lean kernel + 3 standard axioms; the harness/driver/check.py glue; tree-sitter parsing of pattern text is not part of this property's model. Modelled-not-verified functions are listed in evidence.trusted_base.",
     "technique": "Lean 4 proof over hand-written executable model + differential correspondence (exhaustive short strings, seeded random) + generated expando table checked by `decide`",
 }
+
+
+# round 11: the unit `structural` also runs under this property
+ENTRY["units"] += ["structural"]
